@@ -278,7 +278,11 @@ func init() {
 			// the same name twice anywhere in a tree must be refused by the factories (every pair of variable positions)
 			ds := NewTreeScope(atoms, 3, 3, 3)
 			sp = append(sp, h.Space{Name: "same-name-at-every-pair-of-positions", Count: ds.Count(),
-				Describe: func(i uint64) interface{} { n := ds.Nth(i); nameTemplate(n); return "every pair of variables renamed to one name in " + ref.Print(n) },
+				Describe: func(i uint64) interface{} {
+					n := ds.Nth(i)
+					nameTemplate(n)
+					return "every pair of variables renamed to one name in " + ref.Print(n)
+				},
 				Run: func(c *h.Ctx, i uint64) {
 					n := ds.Nth(i)
 					if !nameTemplate(n) {
